@@ -1,8 +1,8 @@
 (* crates/apollo-parser/src/parser/grammar/*.rs : one definition per function, same names, same order of
-   tests.  `let _g = p.start_node(K); ...` is `p_node K (...)` (the guard finishes the p_node at scope exit,
-   early returns included).  Loops (p_peek_while, p_peek_while_kind, p_parse_separated_list) and the recursive
-   families (g_value/g_list_value/g_object_value/g_object_field, g_selection_set/g_selection/g_field/g_inline_fragment,
-   g_ty::g_parse) take `fuel`: a bound on nesting depth and on the iterations of each loop. *)
+   tests.  `let _g = p.start_node(K); ...` is `node K (...)` (the guard finishes the node at scope exit,
+   early returns included).  Loops (peek_while, peek_while_kind, parse_separated_list) and the recursive
+   families (value/list_value/object_value/object_field, selection_set/selection/field/inline_fragment,
+   ty::parse) take `fuel`: a bound on nesting depth and on the iterations of each loop. *)
 From ApolloVerif Require Import Base.Chars Lex.Item Parse.Outcome Parse.Builder Parse.Limits Parse.Monad
   Parse.Keywords.
 
@@ -18,7 +18,7 @@ Definition g_if_peek (k : tkind) (m : PM unit) : PM unit := b <- g_peek_is k ;; 
 
 Inductive g_constness := GConst | GNotConst.
 
-(* ------------------------------------------------------------------ g_name.rs *)
+(* ------------------------------------------------------------------ name.rs *)
 Definition g_is_start_char := is_name_start.
 Definition g_is_remainder_char := is_name_continue.
 
@@ -27,7 +27,7 @@ Definition g_validate_name (g_name : str) : PM unit :=
   if 2 <=? blen g_name then
     match g_name with
     | c :: r =>
-        (* g_name[1..] : byte 1 must be a char boundary *)
+        (* name[1..] : byte 1 must be a char boundary *)
         if u8len c =? 1 then p_when (negb (forallb g_is_remainder_char r)) p_err_and_pop
         else p_panic PnNameSlice
     | [] => p_ret tt
@@ -46,10 +46,10 @@ Definition g_name : PM unit :=
 
 Definition g_alias : PM unit := p_node SK_ALIAS (g_name ;; p_bump SK_COLON).
 
-(* ------------------------------------------------------------------ g_description.rs *)
+(* ------------------------------------------------------------------ description.rs *)
 Definition g_description : PM unit := p_node SK_DESCRIPTION (p_node SK_STRING_VALUE (p_bump SK_STRING)).
 
-(* ------------------------------------------------------------------ g_ty.rs *)
+(* ------------------------------------------------------------------ ty.rs *)
 (* Result<(), Option<Token>> *)
 Inductive g_tyres := GTyOk | GTyErr (t : option ptoken).
 
@@ -62,10 +62,10 @@ Definition g_parse_body (parse_rec : PM g_tyres) : PM g_tyres :=
         p_node SK_LIST_TYPE (
           p_bump SK_L_BRACK ;;
           p_rec_guard
-            (p_limit_err ;; p_ret (Some GTyOk))                        (* return POk(()) *)
+            (p_limit_err ;; p_ret (Some GTyOk))                        (* return Ok(()) *)
             parse_rec
-            (fun presult =>
-               match presult with GTyErr (Some token) => p_err_at_token token | _ => p_ret tt end ;;
+            (fun result =>
+               match result with GTyErr (Some token) => p_err_at_token token | _ => p_ret tt end ;;
                p_expect TkRBracket SK_R_BRACK ;;
                p_ret None))
     | Some TkName =>
@@ -74,8 +74,8 @@ Definition g_parse_body (parse_rec : PM g_tyres) : PM g_tyres :=
           g_validate_name (tok_data token) ;;
           p_push_token SK_IDENT token)) ;;
         p_ret None
-    | Some _ => t <- p_pop ;; p_ghost_dropped t ;; p_ret (Some (GTyErr (Some t)))   (* return IErr(Some(p.pop())) *)
-    | None => p_ret (Some (GTyErr None))                          (* return IErr(None) *)
+    | Some _ => t <- p_pop ;; p_ghost_dropped t ;; p_ret (Some (GTyErr (Some t)))   (* return Err(Some(p.pop())) *)
+    | None => p_ret (Some (GTyErr None))                          (* return Err(None) *)
     end ;;
   match early with
   | Some r => p_ret r
@@ -104,10 +104,10 @@ Definition g_ty (fuel : nat) : PM unit :=
 Definition g_named_type : PM unit :=
   b <- g_peek_is TkName ;; p_when b (p_node SK_NAMED_TYPE g_name).
 
-(* ------------------------------------------------------------------ g_variable.rs (g_variable) *)
+(* ------------------------------------------------------------------ variable.rs (variable) *)
 Definition g_variable : PM unit := p_node SK_VARIABLE (p_bump SK_DOLLAR ;; g_name).
 
-(* ------------------------------------------------------------------ g_value.rs *)
+(* ------------------------------------------------------------------ value.rs *)
 Definition g_enum_value : PM unit :=
   p_node SK_ENUM_VALUE (
     o <- p_peek_token ;;
@@ -184,7 +184,7 @@ Definition g_object_field (fuel : nat) (c : g_constness) : PM unit := g_object_f
 Definition g_default_value (fuel : nat) : PM unit :=
   p_node SK_DEFAULT_VALUE (p_bump SK_EQ ;; g_value fuel GConst false).
 
-(* ------------------------------------------------------------------ g_argument.rs (g_argument, g_arguments) *)
+(* ------------------------------------------------------------------ argument.rs (argument, arguments) *)
 Definition g_argument (fuel : nat) (c : g_constness) : PM unit :=
   p_node SK_ARGUMENT (
     g_name ;;
@@ -199,7 +199,7 @@ Definition g_arguments (fuel : nat) (c : g_constness) : PM unit :=
     p_peek_while_kind fuel TkName (g_argument fuel c) ;;
     p_expect TkRParen SK_R_PAREN).
 
-(* ------------------------------------------------------------------ g_directive.rs (g_directive, g_directives) *)
+(* ------------------------------------------------------------------ directive.rs (directive, directives) *)
 Definition g_directive (fuel : nat) (c : g_constness) : PM unit :=
   p_node SK_DIRECTIVE (
     p_expect TkAt SK_AT ;;
@@ -209,7 +209,7 @@ Definition g_directive (fuel : nat) (c : g_constness) : PM unit :=
 Definition g_directives (fuel : nat) (c : g_constness) : PM unit :=
   p_node SK_DIRECTIVES (p_peek_while_kind fuel TkAt (g_directive fuel c)).
 
-(* ------------------------------------------------------------------ input.rs (g_input_value_definition) *)
+(* ------------------------------------------------------------------ input.rs (input_value_definition) *)
 Definition g_input_value_definition (fuel : nat) : PM unit :=
   p_node SK_INPUT_VALUE_DEFINITION (
     g_if_peek TkStringValue g_description ;;
@@ -225,7 +225,7 @@ Definition g_input_value_definition (fuel : nat) : PM unit :=
       else p_err
     else p_err).
 
-(* ------------------------------------------------------------------ g_argument.rs (g_arguments_definition) *)
+(* ------------------------------------------------------------------ argument.rs (arguments_definition) *)
 Definition g_arguments_definition_body (fuel : nat) : PM unit :=
   p_bump SK_L_PAREN ;;
   b <- g_peek_in [TkName; TkStringValue] ;;
@@ -240,7 +240,7 @@ Definition g_arguments_definition_body (fuel : nat) : PM unit :=
 Definition g_arguments_definition (fuel : nat) : PM unit :=
   p_node SK_ARGUMENTS_DEFINITION (g_arguments_definition_body fuel).
 
-(* ------------------------------------------------------------------ g_directive.rs (definition, locations) *)
+(* ------------------------------------------------------------------ directive.rs (definition, locations) *)
 Definition g_directive_location_kw (d : str) : option skind :=
   if p_str_eqb d pkw_QUERY then Some SK_QUERY_KW
   else if p_str_eqb d pkw_MUTATION then Some SK_MUTATION_KW
@@ -295,7 +295,7 @@ Definition g_directive_definition (fuel : nat) : PM unit :=
     l <- g_peek_in [TkName; TkPipe] ;;
     if l then p_node SK_DIRECTIVE_LOCATIONS (g_directive_locations fuel) else p_err).
 
-(* ------------------------------------------------------------------ g_variable.rs (definitions) *)
+(* ------------------------------------------------------------------ variable.rs (definitions) *)
 Definition g_variable_definition (fuel : nat) : PM unit :=
   p_node SK_VARIABLE_DEFINITION (
     g_variable ;;
@@ -318,7 +318,7 @@ Definition g_variable_definitions (fuel : nat) : PM unit :=
     p_peek_while_kind fuel TkDollar (g_variable_definition fuel) ;;
     p_expect TkRParen SK_R_PAREN).
 
-(* ------------------------------------------------------------------ fragment.rs (g_name, condition, spread) *)
+(* ------------------------------------------------------------------ fragment.rs (name, condition, spread) *)
 Definition g_fragment_name : PM unit :=
   p_node SK_FRAGMENT_NAME (
     o <- p_peek_token ;;
@@ -348,7 +348,7 @@ Definition g_fragment_spread (fuel : nat) : PM unit :=
     (if b then g_fragment_name else p_err) ;;
     g_if_peek TkAt (g_directives fuel GNotConst)).
 
-(* ------------------------------------------------------------------ g_selection.rs / g_field.rs / fragment.rs *)
+(* ------------------------------------------------------------------ selection.rs / field.rs / fragment.rs *)
 Definition g_field_ (g_selection_set : PM unit) (fuel : nat) : PM unit :=
   p_node SK_FIELD (
     b <- g_peek_is TkName ;;
@@ -456,7 +456,7 @@ Definition g_operation_definition (fuel : nat) : PM unit :=
   | _ => p_err_and_pop
   end.
 
-(* ------------------------------------------------------------------ g_field.rs (definitions) *)
+(* ------------------------------------------------------------------ field.rs (definitions) *)
 Definition g_field_definition (fuel : nat) : PM unit :=
   p_node SK_FIELD_DEFINITION (
     g_if_peek TkStringValue g_description ;;
@@ -493,7 +493,7 @@ Definition g_implements_interfaces (fuel : nat) : PM unit :=
       b <- g_peek_is TkName ;;
       if b then g_named_type else p_err)).
 
-Definition g_name_or_err : PM unit :=       (* match p.peek() { Some(TkName) => g_name::g_name(p), _ => p.err(..) } *)
+Definition g_name_or_err : PM unit :=       (* match p.peek() { Some(Name) => name::name(p), _ => p.err(..) } *)
   b <- g_peek_is TkName ;; if b then g_name else p_err.
 
 Definition g_object_type_definition (fuel : nat) : PM unit :=
@@ -684,7 +684,7 @@ Definition g_input_object_type_extension (fuel : nat) : PM unit :=
     f <- g_peek_is TkLCurly ;; p_when f (g_input_fields_definition fuel) ;;
     p_when (negb (d || f)) p_err).
 
-(* ------------------------------------------------------------------ g_extensions.rs *)
+(* ------------------------------------------------------------------ extensions.rs *)
 Definition g_extensions (fuel : nat) : PM unit :=
   o <- p_peek_data_n 2 ;;
   match o with
@@ -700,7 +700,7 @@ Definition g_extensions (fuel : nat) : PM unit :=
   | None => p_err_and_pop
   end.
 
-(* ------------------------------------------------------------------ g_document.rs *)
+(* ------------------------------------------------------------------ document.rs *)
 Definition g_select_definition (def : str) (fuel : nat) : PM unit :=
   if p_str_eqb def pkw_directive then g_directive_definition fuel
   else if p_str_eqb def pkw_enum then g_enum_type_definition fuel
